@@ -20,13 +20,13 @@ def pre(tier):
     return dict(oracle_checked=ref.self_check(2))
 
 
-def h_expect_list(env, N, r, L, fix=None):
+def h_expect_list(env, N, r, L, fix=None, dtype='int64'):
     M = Mods(env)
     gs, ps = sym_state(env, N)
     go = env.bits('obs', (L, 2 * N)) if fix is None else env.const(fix)
     po = env.signs('obs_sign', (L,))
     state = mk_state(M, env, gs, ps, r)
-    obs = M.pa.PauliList(go.copy(), po.copy())
+    obs = M.pa.PauliList(as_dtype(env, go, dtype), as_dtype(env, po, dtype))
     res = env.run(lambda: state.expect(obs))
     env.goal('no_exception', b_not(res.raised))
     if res.value is not None:
@@ -217,6 +217,7 @@ def jobs(tier):
     for N in (1, 2):
         for r in range(N + 1):
             J.append(dict(harness=('c07', 'h_expect_list'), params=dict(N=N, r=r, L=2), timeout_s=300, cost=5))
+            J.append(dict(harness=('c07', 'h_expect_list'), params=dict(N=N, r=r, L=2, dtype='uint8'), timeout_s=300, cost=5))
             for kind in ('pauli', 'monomial', 'poly'):
                 J.append(dict(harness=('c07', 'h_expect_poly'), params=dict(N=N, r=r, kind=kind), timeout_s=300, cost=10))
             J.append(dict(harness=('c07', 'h_get_prob'), params=dict(N=N, r=r), timeout_s=300, cost=10))
